@@ -83,6 +83,50 @@ class Sym:
         self._prov = None
         self._outside = {}
 
+    def _single_def(self, l):
+        """the statement that is the only definition of temporary `l` (no call defines it), or None"""
+        fn = self.fn
+        if 1 <= l <= fn.argc or fn.local_name(l):
+            return None
+        d = fn.defs().get(l, [])
+        if len(d) != 1 or d[0][1] == "term":
+            return None
+        return fn.blocks[d[0][0]]["st"][d[0][1]]
+
+    def _static_target(self, place, depth=0):
+        """`*r = v` where the temporary `r` can only be `&mut x` — directly, through moves, or as the field
+        of a closure aggregate that captured `&mut x` (an inlined closure writing a captured variable) —
+        is an assignment to `x`: the place written, with such references followed."""
+        l, projs = place
+        if not projs or depth > 8:
+            return place
+        cache = self.__dict__.setdefault("_targets", {})
+        key = (l, _pkey(projs))
+        if key in cache:
+            return cache[key]
+        out = place
+        st = self._single_def(l)
+        if st is not None and not st["p"][1]:
+            r = st["r"]
+            if projs[0] == "*" and r["k"] == "ref" and "*" not in r["p"][1]:
+                out = self._static_target([r["p"][0], list(r["p"][1]) + list(projs[1:])], depth + 1)
+            elif r["k"] in ("use", "cast") and op_place(r["o"]) is not None:
+                pl = op_place(r["o"])
+                out = self._static_target([pl[0], list(pl[1]) + list(projs)], depth + 1)
+            elif r["k"] == "agg" and isinstance(projs[0], list) and projs[0][0] == "f" and r.get("agg") == "closure" or (r["k"] == "agg" and isinstance(projs[0], list) and projs[0][0] == "f" and len(projs[0]) > 3 and projs[0][3] == "{closure}"):
+                idx = projs[0][1]
+                if isinstance(idx, int) and idx < len(r["fields"]):
+                    pl = op_place(r["fields"][idx])
+                    if pl is not None and not pl[1]:
+                        out = self._static_target([pl[0], list(projs[1:])], depth + 1)
+        # only a whole named local (or a field of it) is worth redirecting to
+        if out is not place:
+            tl = out[0]
+            if not (self.fn.local_name(tl) and tl > self.fn.argc and "*" not in [p for p in out[1] if p == "*"]):
+                out = place
+        cache[key] = out
+        return out
+
     # -- expression evaluation in an environment ------------------------------------------
     def const(self, k):
         return const_expr(self.fn, k)
@@ -240,7 +284,7 @@ class Sym:
             for st in blk["st"]:
                 k = st["k"]
                 if k == "A":
-                    l, projs = st["p"]
+                    l, projs = self._static_target(st["p"])
                     val = self.rvalue(env, st["r"])
                     if not projs:
                         env = dict(env)
